@@ -159,7 +159,8 @@ fn op_parse(case: &Value) -> Value {
         return json!({"ok": false, "stage": "utf8", "error": "input is not UTF-8"});
     };
     match parse_file(&text) {
-        Ok(ts) => json!({"ok": true, "txns": ts.iter().map(show_txn).collect::<Vec<_>>()}),
+        Ok(ts) => json!({"ok": true, "txns": ts.iter().map(show_txn).collect::<Vec<_>>(),
+                         "json_pretty": serde_json::to_string_pretty(&ts).ok()}),
         Err(e) => json!({"ok": false, "stage": "parse", "error": e.to_string()}),
     }
 }
@@ -221,9 +222,19 @@ fn op_roundtrip(case: &Value, fx: &cgt_money::FxCache) -> Value {
     };
     let want_reports = case.get("reports").and_then(|v| v.as_bool()).unwrap_or(false);
     json!({"ok": true, "orig": ts.iter().map(show_txn).collect::<Vec<_>>(), "dsl_hex": hex_encode(dsl.as_bytes()),
+           "json_text": js.as_ref().ok().cloned(),
            "dsl_back": dsl_back, "dsl_twice_equal": dsl2.as_ref().map(|d| d == &dsl), "json_back": json_back,
            "report_orig": if want_reports { report_sig(&ts, fx) } else { Value::Null },
            "report_dsl": if want_reports { back.as_ref().map(|b| report_sig(b, fx)).unwrap_or(Value::Null) } else { Value::Null }})
+}
+
+/// serde's reading of a JSON text as a transaction list (the CLI's and the MCP tools' JSON input path).
+fn op_json_read(case: &Value) -> Value {
+    let text = case["json_text"].as_str().unwrap_or("");
+    match serde_json::from_str::<Vec<Transaction>>(text) {
+        Ok(ts) => json!({"ok": true, "txns": ts.iter().map(show_txn).collect::<Vec<_>>()}),
+        Err(e) => json!({"ok": false, "error": e.to_string()}),
+    }
 }
 
 /// One computed report rendered by the plain-text formatter and as JSON, beside its full-precision values.
@@ -405,6 +416,7 @@ fn main() {
             "currencies" => op_currencies(),
             "parse" => op_parse(&case),
             "roundtrip" => op_roundtrip(&case, &fx),
+            "json_read" => op_json_read(&case),
             "format" => op_format(&case, &fx),
             "schwab" => op_schwab(&case),
             "rates" => op_rates(&fx),
